@@ -41,6 +41,8 @@ type selCase struct {
 	// whatever its EXAMPLE cell says (those rows are then disabled in the
 	// product profile on purpose, although enabled rows refer to them)
 	HRST bool `json:"hrst_flag,omitempty"`
+	// Group names the kind of rows a "kinds" selection disables.
+	Group string `json:"rows_disabled_by_kind,omitempty"`
 }
 
 const hrstName = "heart_rate_source_type"
@@ -727,6 +729,78 @@ func TestC19(t *testing.T) {
 		}
 		wg.Wait()
 		rec.Exhaustive("cover: every enabled row of every bundled workbook is disabled in at least one of 3 selections per workbook")
+
+		// kinds: per workbook, the selections that disable every row of one
+		// workbook type (all date_time rows, all strings, all byte rows ...),
+		// every array row, or every row with components - together with
+		// whatever depends on those rows. What the generated sources need
+		// (imports, helpers) must follow what the enabled rows need.
+		kindBooks := []string{"21.40", "16.20"}
+		if hx.Thorough() {
+			kindBooks = versions
+		}
+		var kinds []selCase
+		for _, v := range kindBooks {
+			b := bks[v]
+			groups := map[string][]int{}
+			var order []string
+			add := func(k string, line int) {
+				if _, ok := groups[k]; !ok {
+					order = append(order, k)
+				}
+				groups[k] = append(groups[k], line)
+			}
+			baseLike := map[string]bool{"date_time": true, "local_date_time": true, "string": true, "byte": true, "bool": true, "float32": true, "float64": true,
+				"enum": true, "uint8": true, "uint16": true, "uint32": true, "uint64": true, "sint8": true, "sint16": true, "sint32": true, "sint64": true,
+				"uint8z": true, "uint16z": true, "uint32z": true, "uint64z": true}
+			for _, r := range b.rows {
+				if !r.Enabled {
+					continue
+				}
+				if baseLike[r.Type] {
+					add("type "+r.Type, r.Line)
+				}
+				if r.Array != "" {
+					add("arrays", r.Line)
+				}
+				if len(r.Comps) > 0 {
+					add("components", r.Line)
+				}
+			}
+			seen := map[string]bool{}
+			for _, k := range order {
+				disabled := map[int]bool{}
+				for _, l := range groups[k] {
+					disabled[l] = true
+				}
+				b.closeDown(disabled)
+				c := selCase{Version: v, ViaZip: len(kinds)%2 == 1, Group: k}
+				for l := range disabled {
+					c.Disabled = append(c.Disabled, l)
+				}
+				sort.Ints(c.Disabled)
+				if key := fmt.Sprint(c.Disabled); !seen[key] {
+					seen[key] = true
+					kinds = append(kinds, c)
+				}
+			}
+		}
+		for _, c := range kinds {
+			wg.Add(1)
+			go func(c selCase) {
+				defer wg.Done()
+				sem <- struct{}{}
+				defer func() { <-sem }()
+				labels := map[string]int{}
+				if msg, ok := checkSelection(c, labels); !ok {
+					rec.Fail("kinds", "", fmt.Sprintf("SDK %s, every row of kind %q disabled (%d rows with what depends on them): %s", c.Version, c.Group, len(c.Disabled), msg), c)
+				}
+				rec.Eval("kinds", 1)
+				rec.NonTrivial(hx.FP(fmt.Sprint(c.Version, c.Disabled)))
+				rec.Class("table-entries-checked", int64(labels["table-entries-checked"]))
+			}(c)
+		}
+		wg.Wait()
 
 		hx.RapidCheck(t, rec, "selections", func(rt *rapid.T, fail func(string, string, any)) {
 			d := gen.D{T: rt}
